@@ -1,0 +1,231 @@
+//! Verification hooks, compiled only with the `verif_hooks` cargo feature.
+//! Read-only, canonical and address-free renderings of the interpreter state
+//! for the external deterministic simulator. Nothing here is used by xeh itself.
+use super::*;
+
+#[derive(Clone, Debug, PartialEq, Default)]
+pub struct VerifDump {
+    pub ip: usize,
+    pub mode: &'static str,
+    pub ctx: String,
+    pub nested: Vec<String>,
+    /// number of data stack items hidden from the current context
+    pub hidden: usize,
+    /// whole data stack, bottom first (hidden items included)
+    pub data: Vec<String>,
+    pub frames: Vec<String>,
+    pub loops: Vec<String>,
+    pub special: Vec<String>,
+    pub heap: Vec<String>,
+    pub flows: Vec<String>,
+    pub inputs: usize,
+    pub sources: usize,
+    pub dict_len: usize,
+    pub code_len: usize,
+    pub debug_map_len: usize,
+    pub insn_meter: usize,
+    pub insn_limit: Option<usize>,
+    pub stack_limit: Option<usize>,
+    pub heap_limit: Option<usize>,
+    pub rlog_len: Option<usize>,
+    pub stdout: Option<String>,
+    pub about_to_stop: bool,
+}
+
+fn mode_name(m: &ContextMode) -> &'static str {
+    match m {
+        ContextMode::Compile => "compile",
+        ContextMode::Eval => "eval",
+        ContextMode::MetaEval => "meta",
+    }
+}
+
+fn render_ctx(c: &Context) -> String {
+    format!(
+        "ds={} cs={} rs={} fs={} ls={} ss={} di={} ip={} mode={}",
+        c.ds_len, c.cs_len, c.rs_len, c.fs_len, c.ls_len, c.ss_ptr, c.di_len, c.ip,
+        mode_name(&c.mode)
+    )
+}
+
+/// Render a value by content only: every bit, every element, every tag.
+pub fn verif_render_cell(c: &Cell) -> String {
+    let mut s = String::new();
+    render_cell(c, &mut s);
+    s
+}
+
+fn render_cell(c: &Cell, s: &mut String) {
+    use std::fmt::Write;
+    match c {
+        Cell::Nil => s.push_str("nil"),
+        Cell::Flag(x) => s.push_str(if *x { "true" } else { "false" }),
+        Cell::Int(i) => write!(s, "{}", i).unwrap(),
+        Cell::Real(r) => write!(s, "r{:016x}", r.to_bits()).unwrap(),
+        Cell::Str(x) => write!(s, "{:?}", x.as_str()).unwrap(),
+        Cell::Vector(v) => {
+            s.push_str("[");
+            for x in v.iter() {
+                s.push(' ');
+                render_cell(x, s);
+            }
+            s.push_str(" ]");
+        }
+        Cell::Map(m) => {
+            s.push_str("{");
+            for (k, v) in m.iter() {
+                s.push(' ');
+                render_cell(k, s);
+                s.push_str("=>");
+                render_cell(v, s);
+            }
+            s.push_str(" }");
+        }
+        Cell::Fun(Xfn::Interp(a)) => write!(s, "f:{}", a).unwrap(),
+        Cell::Fun(Xfn::Native(_)) => s.push_str("xf"),
+        Cell::Bitstr(b) => {
+            s.push('|');
+            for x in b.bits() {
+                s.push(if x == 0 { '0' } else { '1' });
+            }
+            s.push('|');
+        }
+        Cell::AnyRc(_) => s.push_str("any"),
+        Cell::WithTag(_) => {
+            render_cell(c.value(), s);
+            s.push_str("^{");
+            if let Some(tags) = c.tags() {
+                for (k, v) in tags.iter() {
+                    s.push(' ');
+                    render_cell(k, s);
+                    s.push_str("=>");
+                    render_cell(v, s);
+                }
+            }
+            s.push_str(" }");
+        }
+    }
+}
+
+impl State {
+    pub fn verif_dump(&self) -> VerifDump {
+        VerifDump {
+            ip: self.ctx.ip,
+            mode: mode_name(&self.ctx.mode),
+            ctx: render_ctx(&self.ctx),
+            nested: self.nested.iter().map(render_ctx).collect(),
+            hidden: self.ctx.ds_len,
+            data: self.data_stack.iter().map(verif_render_cell).collect(),
+            frames: self
+                .return_stack
+                .iter()
+                .map(|f| {
+                    let mut s = format!("fn={} ret={} locals:", f.fn_addr, f.return_to);
+                    for x in f.locals.iter() {
+                        s.push(' ');
+                        render_cell(x, &mut s);
+                    }
+                    s
+                })
+                .collect(),
+            loops: self
+                .loops
+                .iter()
+                .map(|l| format!("{}..{} items={}", l.range.start, l.range.end, verif_render_cell(&l.items)))
+                .collect(),
+            special: self.special.iter().map(|x| format!("{:?}", x)).collect(),
+            heap: self.heap.iter().map(verif_render_cell).collect(),
+            flows: self.flow_stack.iter().map(|x| format!("{:?}", x)).collect(),
+            inputs: self.input.len(),
+            sources: self.sources.len(),
+            dict_len: self.dict.len(),
+            code_len: self.code.len(),
+            debug_map_len: self.debug_map.len(),
+            insn_meter: self.insn_meter,
+            insn_limit: self.insn_limit,
+            stack_limit: self.stack_limit,
+            heap_limit: self.heap_limit,
+            rlog_len: self.reverse_log.as_ref().map(|l| l.len()),
+            stdout: self.stdout.clone(),
+            about_to_stop: self.about_to_stop,
+        }
+    }
+
+    /// total data stack length, hidden items included
+    pub fn verif_data_len(&self) -> usize {
+        self.data_stack.len()
+    }
+
+    pub fn verif_heap_len(&self) -> usize {
+        self.heap.len()
+    }
+
+    pub fn verif_insn_meter(&self) -> usize {
+        self.insn_meter
+    }
+
+    pub fn verif_code_len(&self) -> usize {
+        self.code.len()
+    }
+
+    fn verif_native_name(&self, x: &XfnPtr) -> String {
+        self.dict
+            .iter()
+            .rev()
+            .find(|e| match &e.entry {
+                Entry::Function { xf: Xfn::Native(f), .. } => f == x,
+                _ => false,
+            })
+            .map(|e| e.name.to_string())
+            .unwrap_or_else(|| "?".to_string())
+    }
+
+    /// address-free rendering of one instruction
+    pub fn verif_opcode(&self, op: &Opcode) -> String {
+        match op {
+            Opcode::NativeCall(x) => format!("native {}", self.verif_native_name(x)),
+            Opcode::LoadCell(c) => format!("loadcell {}", verif_render_cell(c)),
+            Opcode::LoadF64(r) => format!("loadf64 r{:016x}", r.to_bits()),
+            Opcode::Load(a) => format!("load {}", a.index()),
+            Opcode::Store(a) => format!("store {}", a.index()),
+            other => format!("{:?}", other),
+        }
+    }
+
+    /// the whole code vector, address-free
+    pub fn verif_code(&self) -> Vec<String> {
+        self.code.iter().map(|op| self.verif_opcode(op)).collect()
+    }
+
+    /// the dictionary: name, kind and content (constants by value)
+    pub fn verif_dict(&self) -> Vec<String> {
+        self.dict
+            .iter()
+            .map(|e| match &e.entry {
+                Entry::Constant(c) => format!("{} const {}", e.name, verif_render_cell(c)),
+                Entry::Variable(a) => format!("{} var {}", e.name, a.index()),
+                Entry::Function { immediate, xf: Xfn::Interp(a), len } => {
+                    format!("{} fn {} len={:?} imm={}", e.name, a, len, immediate)
+                }
+                Entry::Function { immediate, xf: Xfn::Native(_), .. } => {
+                    format!("{} native imm={}", e.name, immediate)
+                }
+            })
+            .collect()
+    }
+
+    /// names and rendered values of all variables and constants, in dictionary order
+    pub fn verif_vars(&self) -> Vec<(String, String)> {
+        self.dict
+            .iter()
+            .filter_map(|e| match &e.entry {
+                Entry::Constant(c) => Some((e.name.to_string(), verif_render_cell(c))),
+                Entry::Variable(a) => self
+                    .heap
+                    .get(a.index())
+                    .map(|c| (e.name.to_string(), verif_render_cell(c))),
+                _ => None,
+            })
+            .collect()
+    }
+}
